@@ -430,6 +430,47 @@ func compareBounds(res *core.Result, fam *boundsFamily, b, n *ast.File) {
 			collect(bx, 1)
 			collect(by, -1)
 			res.Count("bounds_data_index_paths", 1)
+			// every branch condition and every returned expression on the
+			// access path (the band test `pj < 0 || KL+KU+1 <= pj`, the
+			// `return 0` for elements outside the band, ...)
+			conds := map[string]int{}
+			cw := map[string]token.Pos{}
+			collectConds := func(fis []*fnInfo, sign int) {
+				for _, fi := range fis {
+					deleg := fi.delegate()
+					ast.Inspect(fi.decl.Body, func(n ast.Node) bool {
+						switch x := n.(type) {
+						case *ast.IfStmt:
+							k := "if " + canon(fi, x.Cond)
+							conds[k] += sign
+							cw[k] = x.Pos()
+						case *ast.ReturnStmt:
+							for _, r := range x.Results {
+								if c, ok := r.(*ast.CallExpr); ok && deleg != "" {
+									if sel, ok := c.Fun.(*ast.SelectorExpr); ok && sel.Sel.Name == deleg {
+										continue // forwarding to the accessor
+									}
+								}
+								k := "return " + canon(fi, r)
+								conds[k] += sign
+								cw[k] = x.Pos()
+							}
+						}
+						return true
+					})
+				}
+			}
+			collectConds(bx, 1)
+			collectConds(by, -1)
+			for k, c := range conds {
+				if c != 0 {
+					side := "bounds"
+					if c < 0 {
+						side = "default"
+					}
+					report(name, "on this access path the "+side+" build has an extra `"+strings.Join(strings.Fields(strings.ReplaceAll(k, ") ", "")), " ")+"`", cw[k])
+				}
+			}
 			for k, c := range idx {
 				if c != 0 {
 					report(name, "a Data[...] access on this path differs between the builds: "+strings.Join(strings.Fields(strings.ReplaceAll(k, ") ", "")), " "), iw[k])
